@@ -141,8 +141,10 @@ class Net(nn.Module):
         h = prog['head']
         self._hk = h['kind']
         if self._hk in ('flatlin', 'gaplin'):
+            self.eval()
             with torch.no_grad():
                 probe = self._features(torch.zeros((1, prog['cin']) + (prog['size'],) * dim))
+            self.train()
             if self._hk == 'flatlin':
                 if h.get('flat', 'module') == 'module':
                     self.head['flatten'] = nn.Flatten()
@@ -171,8 +173,10 @@ class Net(nn.Module):
             conv = nn.Conv1d if dim == 1 else nn.Conv2d
             self.head['fa'] = conv(c, 3, 1)
             self.head['fb'] = conv(c, 3, 1)
+            self.eval()
             with torch.no_grad():
                 probe = self._features(torch.zeros((1, prog['cin']) + (prog['size'],) * dim))
+            self.train()
             sp = int(probe[0].numel() // c)
             if h.get('join') == 'gap':
                 self.head['gap'] = nn.AdaptiveAvgPool1d(1) if dim == 1 else nn.AdaptiveAvgPool2d(1)
